@@ -15,8 +15,8 @@ Extras == IF Tier = "quick" THEN {<<>>, <<"hgrename", "hgextra">>, <<"unknown">>
                 <<"unknown">>, <<"hgrename", "unknown">>, <<"hgbad">>}
 Product == [enc : Encs, tb : TextBytes, ident : {"same", "diff"}, teq : BOOLEAN, atz : Zones, ctz : Zones,
             gpg : BOOLEAN, mt : MaxTags, extra : Extras, msg : Msgs, par : Parents]
-\* quick: the four independent one-condition fields (times, gpgsig, mergetags, parents) move together
-Cases == IF Tier = "quick" THEN {x \in Product : (x.gpg <=> ~x.teq) /\ x.mt = (IF x.gpg THEN 2 ELSE 0) /\ x.par = x.mt}
+\* quick: three independent one-condition fields (gpgsig, mergetags, parents) move together
+Cases == IF Tier = "quick" THEN {x \in Product : x.mt = (IF x.gpg THEN 2 ELSE 0) /\ x.par = x.mt}
          ELSE {x \in Product : x.par = x.mt}          \* full: only parents and mergetags move together
 VARIABLE c
 Init == c \in Cases
